@@ -487,9 +487,9 @@ Qed.
 (* for every configuration and every history: channel bindings stay one-to-one and in range, ChannelData toward the
    client carries numbers in range, and a conflicting or out-of-range ChannelBind that is answered is answered by an
    error and changes nothing *)
-Theorem chk_C08_model cfg ep h : chk_C08 (model_case cfg ep h) = true.
+Theorem chk_C08_bij_model cfg ep h : chk_C08_bij (model_case cfg ep h) = true.
 Proof.
-  unfold chk_C08, model_case. cbn [rc_steps]. change (@nil obs_alloc) with (listing_of (init ep)).
+  unfold chk_C08_bij, model_case. cbn [rc_steps]. change (@nil obs_alloc) with (listing_of (init ep)).
   apply (all_steps_model cfg chk_C08_step (chk_C08_step_model cfg) h (init ep)). apply inv_init.
 Qed.
 
